@@ -77,6 +77,19 @@ func limitsPrograms(r *rand.Rand, L int) []*Program {
 	} {
 		add("format "+f.fmtstr, Def("r", Call(Id("format"), append([]*Node{Str(f.fmtstr)}, f.args...)...)))
 	}
+	// the output of every kind of directive as the *last* thing written, with the text in front of it sweeping across the
+	// maximum: each writer of the formatter (literal text, single bytes, padding, operands, the %!(EXTRA ...) trailer) has its
+	// own boundary test
+	for _, t := range []struct{ tail string; args []*Node }{
+		{"%%", nil}, {"%d", []*Node{Call(Id("bytes"), Str("a"))}}, {"", []*Node{Int(1)}}, {"%c", []*Node{Char('z')}}, {"%v", []*Node{Arr(Int(1))}},
+		{"%t", []*Node{Bool(true)}}, {"%q", []*Node{Str("a")}}, {"%x", []*Node{Str("a")}}, {"z", nil}, {"%d", []*Node{Int(5)}}, {"%2d", []*Node{Int(5)}},
+		{"%-2d", []*Node{Int(5)}}, {"%s", []*Node{Str("é")}}, {"%v", []*Node{Map([]string{"a"}, []*Node{Int(1)})}}, {"%!", nil}, {"%z", []*Node{Int(1)}},
+		{"%d", nil}, {"%[3]d", []*Node{Int(1)}}, {"%q", []*Node{Char('x')}}, {"%U", []*Node{Char('x')}}, {"%e", []*Node{Float16(16)}}, {"%v", []*Node{Undef()}},
+	} {
+		for n := 0; n <= L+1; n++ {
+			add(fmt.Sprintf("format-tail %q after %d", t.tail, n), Def("r", Call(Id("format"), append([]*Node{Str("%s" + t.tail), str(n)}, t.args...)...)))
+		}
+	}
 	// %x / %X of strings and bytes with every combination of the flags that change the size of the output, for every operand length
 	for _, f := range []string{"%x", "% x", "%#x", "% #x", "%# X", "%-20x", "%020x", "% #20x"} {
 		for n := 1; n <= L; n++ {
